@@ -565,16 +565,13 @@ func TestC01(t *testing.T) {
 
 	// (b) matrix
 	mat := c01Matrix.On(col, fmt.Sprintf("bounded-exhaustive: every standard filter read from the repository's sources (%d) x receiver in U (%d boundary values of every kind and Go representation) x arity 0 and 1 (argument in U), arity 2 for filters that take two arguments (full U^2 in the thorough tier, a seeded sample in quick); every operator x U^2; index/property lookups, loop modifiers, case/when, ranges, include, object printing x U (x U). Oracle: no panic, output xor non-nil SourceError with callable accessors, no output with an error, returns promptly when no loop is spelled out. Every tuple is distinct by construction; ranges that could exceed 10^6 elements are excluded and counted", len(si.Filters), len(c01U)), false)
+	// every loop and range of the matrix is small (larger ones are excluded), so not returning is a violation
+	mat.Hang = func(c *c01MatCase) string { return "hang:" + c.Form }
 	idx := 0
 	run := func(c *c01MatCase) {
 		idx++
 		if env.Mine(idx) {
-			// every loop and range of the matrix is small (larger ones are excluded), so not returning is a violation
-			col.BeginV(func() string { return fmt.Sprintf("%+v", c) }, func() *hx.Violation {
-				return &hx.Violation{Check: "c01.matrix", Sig: "hang:" + c.Form, Message: fmt.Sprintf("form=%s name=%s r=%s a=%v", c.Form, c.Name, c.R, c.A), Case: hx.MustJSON(c)}
-			})
 			mat.Run(c)
-			col.End()
 		}
 	}
 	for _, f := range si.Filters {
@@ -636,19 +633,16 @@ func TestC01(t *testing.T) {
 	// (a) hostile programs, (c) mutations, (d) bytes share one check (source + environment)
 	srcRule := "rapid: (a) hostile grammar programs - every tag nested in every block, ill-typed/missing/extra filter arguments, boundary and oversized literals, undefined names, reserved words as names, stray and unknown tags, hyphens; (c) mutations of the %d template literals found in the repository's *_test.go files (token delete/duplicate/swap, literal -> boundary literal, splice, delimiter corruption, truncation, hostile insertions) plus truncation at every byte (exhaustive); (d) byte strings built from a dictionary of delimiters, tag/filter names, operators, boundary numbers and snippets. Bindings: every member of U. Same oracle as the matrix. Non-trivial: the source contains at least one complete tag or object; distinct by source. Excluded (counted): ranges next to a >= 5-digit literal, include arguments with path separators"
 	srcChk := c01Source.On(col, fmt.Sprintf(srcRule, len(si.Templates)), false)
+	srcChk.Hang = func(c *c01SrcCase) string {
+		if strings.Contains(c.Src, "for") || strings.Contains(c.Src, "tablerow") || strings.Contains(c.Src, "..") {
+			return "" // loops or ranges are spelled out: a time-out is inconclusive
+		}
+		return "hang:no-loop"
+	}
 	runSrc := func(t *rapid.T, src, binds string) {
 		c := &c01SrcCase{Src: src, Binds: binds}
 		col.Journal(hx.MustJSON(map[string]any{"check": "c01.source", "case": c}))
-		if strings.Contains(src, "for") || strings.Contains(src, "tablerow") || strings.Contains(src, "..") {
-			col.Begin(func() string { return trunc(src, 2000) })
-		} else {
-			// no loop or range is spelled out: not returning is a violation
-			col.BeginV(func() string { return trunc(src, 2000) }, func() *hx.Violation {
-				return &hx.Violation{Check: "c01.source", Sig: "hang:no-loop", Message: trunc(src, 400), Case: hx.MustJSON(c)}
-			})
-		}
 		v := srcChk.Run(c)
-		col.End()
 		if v != nil && t != nil {
 			t.Fatalf("%s", v.Message)
 		}
